@@ -28,6 +28,12 @@ qubit, while the argument BIT stays on qubit k.  On each: input_qubits == range(
 the Lean model, `input_qubits_range`), the qubit-map entry of every argument bit name against the compiler model,
 and the round trip through the REPORTED input_qubits / output_qubits.
 
+Histories on ONE QlassF object (`history_programs`, `HISTORIES`, `check_history`): programs whose layout differs between
+uncompute on and off; compile() again under the other flag / the same flag, reads in between, a function compiled
+late, two objects from the same source.  After every step every live object: every observable read twice, == the
+circuit held now, == a fresh object compiled with the same options, all values round-tripped through the REPORTED
+qubits, compiler model on the choices of the latest compile().
+
 A round-trip mismatch with all codec-side checks passing is a front-end (C01) or compiler (C02)
 failure: decided by evaluating qf.expressions against the circuit run with the k-th argument bit ON QUBIT k (what C02
 states), counted and skipped here; a mismatch that is only there when the string is loaded on the reported
@@ -536,6 +542,94 @@ def random_qmap_program(rng, idx):
     return mk_program(f"c05qr_{idx}", argtys, body + ["return (" + ", ".join(picks) + ")"], ty, rx, "qmap:random")
 
 
+# ---- histories on ONE QlassF object: compile() again under other options, read before / in between / after
+def history_programs():
+    """the same for every seed: programs with an intermediate variable whose LAYOUT (number of qubits and / or the
+    qubits of the return bits) differs between uncompute on and off under at least one optimizer profile (measured in
+    every run: `layout_differs`), at 2-3 bits so that all argument values are enumerated"""
+    P = []
+    B, Q2, Q3 = ["bool"], ["qint", 2], ["qint", 3]
+
+    def add(family, argtys, body, ret, rexp):
+        P.append(mk_program(f"c05h_{len(P) + 1}", argtys, body, ret, rexp, "history:" + family))
+
+    S = lambda t: ["scalar", t]  # noqa: E731
+    add("mac", [Q3, Q3], ["c = a + b", "return c * b"], Q3, S(Q3))                     # the seeded demo at 3 bits
+    add("mac", [Q2, Q2], ["c = a - b", "return c * b"], Q2, S(Q2))
+    add("add-add", [Q3, Q3], ["c = a + b", "return c + a"], Q3, S(Q3))
+    add("const", [Q3, Q3], ["c = b + 3", "return c * 3"], Q3, S(Q3))
+    add("square", [Q3, Q3], ["c = a - b", "return c * c"], Q3, S(Q3))                   # return qubits permuted
+    # the intermediate variable used twice: the layout differs under BOTH profiles
+    add("chain3", [Q3, Q3], ["c = a + b", "d = c * b", "return d + c"], Q3, S(Q3))
+    add("chain3", [Q3, Q3], ["c = a + b", "d = c + a", "return d * c"], Q3, S(Q3))
+    add("chain3", [Q3, Q3], ["c = a - b", "d = c - b", "return d - c"], Q3, S(Q3))
+    add("chain3", [Q3, Q3], ["c = a - b", "d = c * a", "return d + c"], Q3, S(Q3))
+    add("chain3", [Q2, Q2], ["c = a * b", "d = c + b", "return d + a"], Q2, S(Q2))
+    add("tuple", [Q3, Q3], ["c = a + b", "d = c < b", "return (d, c + a)"], ["tuple", B, Q3],
+        ["tup", ["var", B], S(Q3)])                                                     # both profiles; a + b wraps (C01)
+    add("tuple", [Q2, Q2], ["c = a ^ b", "d = c < b", "return (d, c + a)"], ["tuple", B, Q2], ["tup", ["var", B], S(Q2)])
+    add("bool-ret", [Q3, Q3], ["c = a + b", "return c > b"], B, S(B))                   # both profiles; a + b wraps (C01)
+    add("ite", [Q3, Q3, B], ["d = a + b", "return d * b if c else d"], Q3, S(Q3))
+    add("same-layout", [Q2, Q2], ["return a + b"], Q2, S(Q2))                           # control: nothing moves
+    add("same-layout", [B, B, B], ["d = a and b", "return d ^ c"], B, S(B))
+    return P
+
+
+def random_history_program(rng, idx):
+    """random variant of `history_programs`: two Qint[w] arguments (w in {2, 3}), an intermediate variable, a return
+    expression that uses it (the templates measured to move the return qubits between uncompute on and off)"""
+    w = rng.choice([2, 3, 3])
+    Q = ["qint", w]
+    s1 = rng.choice(["a + b", "a - b", "a + 1", "b + 3", "a ^ b"] + (["a * b"] if w == 2 else []))
+    s2 = rng.choice(["c * b", "c + a", "c - b", "c * a", "c * 3", "(c + 1) * b", "c * c", "c + b"])
+    if rng.random() < 0.3:
+        s3 = rng.choice(["d + c", "d + a", "d * b", "d - c", "d * c"])
+        body = [f"c = {s1}", f"d = {s2}", f"return {s3}"]
+    else:
+        body = [f"c = {s1}", f"return {s2}"]
+    return mk_program(f"c05hr_{idx}", [Q, Q], body, Q, ["scalar", Q], "history:random")
+
+
+# a history = steps on named objects; ("new", obj, uncompute | None [, other profile]) creates it from the source
+# (None: to_compile=False), ("compile", obj, uncompute) calls obj.compile("internal", uncompute=...) on the SAME object,
+# ("read", obj) reads every observable again.  After every step EVERY live compiled object is judged.
+HISTORIES = {
+    "on>off>on": [("new", "A", True), ("compile", "A", False), ("compile", "A", True)],
+    "off>on>off": [("new", "A", False), ("compile", "A", True), ("compile", "A", False)],
+    "uncompiled>on>on>off>off": [("new", "A", None), ("compile", "A", True), ("read", "A"), ("compile", "A", True),
+                                 ("compile", "A", False), ("read", "A"), ("compile", "A", False)],
+    "two-objects": [("new", "A", True), ("new", "B", False), ("compile", "A", False), ("compile", "B", True)],
+    "two-profiles": [("new", "A", True), ("new", "B", True, "other"), ("compile", "A", False), ("read", "B")],
+}
+OTHER_PROFILE = {"defaultOptimizer": "fastOptimizer", "fastOptimizer": "defaultOptimizer"}
+
+
+def random_history(rng):
+    """1-2 objects, 3-6 steps drawn from {compile(on), compile(off), read}; the first object starts compiled with a
+    random flag or uncompiled, the second one (if any) appears at a random step"""
+    steps = [("new", "A", rng.choice([True, False, None]))]
+    objs = ["A"]
+    for _ in range(rng.randint(3, 6)):
+        r = rng.random()
+        if r < 0.15 and len(objs) == 1:
+            objs.append("B")
+            steps.append(("new", "B", rng.choice([True, False])))
+        elif r < 0.3:
+            steps.append(("read", rng.choice(objs)))
+        else:
+            steps.append(("compile", rng.choice(objs), rng.choice([True, False])))
+    return steps
+
+
+def step_text(st):
+    if st[0] == "new":
+        how = "to_compile=False" if st[2] is None else f"uncompute={st[2]}"
+        return f"{st[1]} = qlassf(src, {how}{', other profile' if len(st) > 3 else ''})"
+    if st[0] == "compile":
+        return f"{st[1]}.compile('internal', uncompute={st[2]})"
+    return f"read {st[1]}"
+
+
 def random_program(rng, idx, maxbits):
     nargs = rng.choice([1, 1, 2, 2, 3])
     argtys, left = [], maxbits
@@ -651,6 +745,7 @@ class Checker:
         self.active = {f["quirk"]: f["id"] for f in ctx.findings if f.get("_active") and f.get("quirk")}
         self.quirks = sorted(self.active)
         self.reqs = []  # (request, callback(reply))
+        self._fresh = {}
         self.stats = dict(programs=0, rejected=0, skipped_c01=0, skipped_c02=0, nonclassical=0,
                           shared_qubit_pairs=0, no_output_qubits=0, roundtrips=0,
                           e2e_instances=0, e2e_in_class=0, e2e_covered=0, e2e_no_form=0, e2e_cache_hit=0,
@@ -673,21 +768,28 @@ class Checker:
         self.reqs = []
 
     # ------------------------------------------------------------------
-    def check_program(self, prog, max_exh_bits, n_samples, rng, config=DEFAULT_CONFIG, codec=True):
+    def check_program(self, prog, max_exh_bits, n_samples, rng, config=DEFAULT_CONFIG, codec=True, given=None, hist=None):
         """`config` = (optimizer profile name, uncompute): how the function is translated and compiled.  `codec=False`
         leaves out the checks that do not depend on the compilation (decode_output of own encodings, purity of
         format_outcome / interpret_as_qtype, list-valued arguments): used when the same program is compiled again
-        under another configuration."""
+        under another configuration.  `given` = (QlassF, ChoiceLog of its LATEST compile()): the state of an object
+        with a history (`check_history`) is judged instead of a fresh one; `hist` = the history so far (part of the
+        case)."""
         res, T = self.res, self.T
         pcase = dict(src=prog["src"], profile=config[0], uncompute=config[1])
+        if hist:
+            pcase.update(hist)
         self.stats["programs"] += 1
         cstat = self.stats["by_config"].setdefault(config_tag(config), dict(programs=0, rejected=0, roundtrips=0,
                                                                               rebinding_programs=0, e2e_covered=0))
         cstat["programs"] += 1
         try:
-            with e2e.ChoiceLog() as chlog:  # ancilla choices of the real compilation (for the end-to-end coverage)
-                qf = self.qlassf(prog["src"], to_compile=True, bool_optimizer=getattr(self.boolopt, config[0]),
-                                 uncompute=config[1])
+            if given is not None:
+                qf, chlog = given
+            else:
+                with e2e.ChoiceLog() as chlog:  # ancilla choices of the real compilation (for the end-to-end coverage)
+                    qf = self.qlassf(prog["src"], to_compile=True, bool_optimizer=getattr(self.boolopt, config[0]),
+                                     uncompute=config[1])
         except Exception as e:  # front end / compiler rejects: not this property's business
             self.stats["rejected"] += 1
             cstat["rejected"] += 1
@@ -750,6 +852,7 @@ class Checker:
         self.ask(dict(op="c05.sig", args=prog["args"], ret=ret), cb_sig)
         # ---- output qubits
         ret_syms = [s.name for s, _ in qf.expressions if s.name.startswith("_ret")]
+        alt_oq = None
         try:
             oq = list(qf.output_qubits)
             oq_exc = None
@@ -795,11 +898,21 @@ class Checker:
             if oq != exp_oq or len(oq) != m or any((not isinstance(q, int)) or q < 0 or q >= nq for q in oq):
                 res.violation(pcase, "output_qubits are not the in-range qubits of the return bits in return bit order",
                               code=oq, expected=exp_oq)
-                oq = None
+                if (len(oq) == m and all(isinstance(q, int) and 0 <= q < nq for q in oq)
+                        and all(isinstance(q, int) and 0 <= q < nq for q in exp_oq)):
+                    alt_oq = exp_oq  # usable: the round trip is still run through the REPORTED qubits (witness value)
+                else:
+                    oq = None
         # ---- values
         qf_before = self.qf_state(qf)
         gates = circ.qc_to_json(qf.circuit())
         classical = all(circ.is_classical(g) or g["c"] in ("Barrier", "NopGate") for g in gates)
+        # the reported number of qubits is that of the circuit() the object hands out, and covers every wire of it
+        wires = 1 + max([q for g in gates for q in g.get("w", [])] + [q for q in qmap.values() if isinstance(q, int)] + [-1])
+        if nq != qf.circuit().num_qubits or nq < wires:
+            res.violation(pcase, "num_qubits is not the number of qubits of the circuit the object returns (or a gate / "
+                                 "mapped name lies outside it)", code=nq, expected=dict(circuit_num_qubits=qf.circuit().num_qubits, wires_used=wires))
+            nq = max(nq, wires)
         if not classical:
             self.stats["nonclassical"] += 1
         # ---- is this compiled function covered end to end by the Lean theorem C05_end_to_end_general?
@@ -896,7 +1009,14 @@ class Checker:
                 # failure that is also there with the bits loaded by position is the compiler's or the front end's
                 st_pos = circ.run_classical(gates, list(flat) + [False] * (nq - n))
                 pos_bits = [st_pos[q] for q in oq]
-                if circ_bits != pos_bits:
+                if alt_oq is not None and [st[q] for q in alt_oq] == exp_bits:
+                    if not state.get("alt_reported"):
+                        state["alt_reported"] = True
+                        res.violation(case, "round trip: the reading of the REPORTED output_qubits does not decode to f(v); the "
+                                            "qubits the current circuit's qubit_map gives the return bit names hold f(v)",
+                                      code=dict(encode_input=s, reading=reading, decoded=got, output_qubits=oq),
+                                      expected=dict(value=expected, output_qubits=alt_oq))
+                elif circ_bits != pos_bits:
                     res.violation(case, "round trip: loading encode_input(v) on the reported input_qubits does not give f(v), "
                                         "loading the k-th argument bit on qubit k gives other output bits",
                                   code=dict(encode_input=s, input_qubits=in_q, reading=reading, decoded=got, output_qubits=oq,
@@ -944,6 +1064,133 @@ class Checker:
             diff = {k: dict(before=qf_before[k], after=qf_after[k]) for k in qf_before if qf_before[k] != qf_after[k]}
             res.violation(pcase, "encode_input / decode_output / decode_counts changed the QlassF they were called on", code=diff)
         return exhaustive
+
+    # ------------------------------------------------------------------ histories on one object
+    OBS = ("input_qubits", "output_qubits", "input_size", "output_size", "num_qubits", "num_gates", "qubits")
+
+    @classmethod
+    def observe(cls, qf):
+        """everything the object reports about its circuit, each read through the public API"""
+        o = {}
+        for k in cls.OBS:
+            try:
+                v = getattr(qf, k)
+                o[k] = list(v) if isinstance(v, (list, tuple, range)) else v
+            except Exception as e:  # noqa
+                o[k] = f"{type(e).__name__}: {e}"
+        try:
+            c = qf.circuit()
+            o["circuit.num_qubits"] = c.num_qubits
+            o["circuit.gates"] = canon_gates(circ.qc_to_json(c))
+            o["circuit.qubit_map"] = sorted(c.qubit_map.items())
+        except Exception as e:  # noqa
+            o["circuit"] = f"{type(e).__name__}: {e}"
+        return o
+
+    def fresh_obs(self, prog, profile, unc):
+        """what a FRESH object translated under `profile` and compiled once with `unc` reports (cached per program)"""
+        key = (prog["src"], profile, unc)
+        if key not in self._fresh:
+            qf = self.qlassf(prog["src"], to_compile=True, bool_optimizer=getattr(self.boolopt, profile), uncompute=unc)
+            self._fresh[key] = self.observe(qf)
+        return self._fresh[key]
+
+    def layout_differs(self, prog, profile):
+        a, b = self.fresh_obs(prog, profile, True), self.fresh_obs(prog, profile, False)
+        return dict(num_qubits=a["num_qubits"] != b["num_qubits"], output_qubits=a["output_qubits"] != b["output_qubits"],
+                    gates=a["circuit.gates"] != b["circuit.gates"])
+
+    def check_history(self, prog, profile, hname, steps, max_exh_bits, n_samples, rng):
+        """run `steps` on QlassF objects made from prog['src'] under `profile`; after every step every compiled live
+        object is judged: (1) every observable read twice gives the same answer, and is consistent with the circuit the
+        object holds NOW (num_qubits, qubits, num_gates, sizes); (2) it equals what a fresh object compiled with the
+        object's current options reports (gate list and qubit map included); (3) `check_program` on the object itself:
+        own-name oracle for output_qubits against the current qubit map, ALL argument values round-tripped through the
+        REPORTED input_qubits / output_qubits against the Python source, the compiler model run with the current
+        uncompute flag on the choices logged from the LATEST compile() against the circuit and the reported qubits."""
+        res = self.res
+        hs = self.stats.setdefault("histories", dict(histories=0, steps=0, states_judged=0, recompiles=0,
+                                                     recompiles_changing_flag=0, recompiles_moving_output_qubits=0,
+                                                     recompiles_changing_num_qubits=0, by_history={}))
+        hs["histories"] += 1
+        hs["by_history"][hname] = hs["by_history"].get(hname, 0) + 1
+        n = sum(ty_size(t) for _, t in prog["args"])
+        objs = {}  # name -> dict(qf, profile, unc, chlog)
+        done = []
+        for k, stp in enumerate(steps):
+            done.append(step_text(stp))
+            hist = dict(history=hname, step=k, steps=list(done))
+            hcase = dict(src=prog["src"], profile=profile, **hist)
+            hs["steps"] += 1
+            if stp[0] == "new":
+                prof = OTHER_PROFILE[profile] if len(stp) > 3 else profile
+                try:
+                    with e2e.ChoiceLog() as chlog:
+                        qf = self.qlassf(prog["src"], to_compile=stp[2] is not None, bool_optimizer=getattr(self.boolopt, prof),
+                                         uncompute=bool(stp[2]))
+                except Exception as e:  # noqa
+                    self.stats["rejected"] += 1
+                    res.notes.append(f"rejected {prog['name']} ({prog['kind']}, {prof}): {type(e).__name__}: {str(e)[:80]}") if len(res.notes) < 12 else None
+                    return
+                objs[stp[1]] = dict(qf=qf, profile=prof, unc=stp[2], chlog=chlog)
+                if stp[2] is None:
+                    # not compiled yet: the signature side is there already
+                    try:
+                        iq, isz = list(qf.input_qubits), qf.input_size
+                    except Exception as e:  # noqa
+                        iq, isz = f"{type(e).__name__}: {e}", None
+                    if iq != list(range(n)) or isz != n:
+                        res.violation(hcase, "input_qubits / input_size of a function that is not compiled yet are not [0..n) / n",
+                                      code=dict(input_qubits=iq, input_size=isz), expected=list(range(n)))
+            elif stp[0] == "compile":
+                o = objs[stp[1]]
+                before = self.observe(o["qf"]) if o["unc"] is not None else None
+                try:
+                    with e2e.ChoiceLog() as chlog:
+                        o["qf"].compile("internal", uncompute=stp[2])
+                except Exception as e:  # noqa
+                    res.violation(hcase, f"compile() on an existing object raised {type(e).__name__}: {e}")
+                    return
+                hs["recompiles"] += before is not None
+                if before is not None and o["unc"] != stp[2]:
+                    hs["recompiles_changing_flag"] += 1
+                    fr = self.fresh_obs(prog, o["profile"], stp[2])
+                    hs["recompiles_moving_output_qubits"] += before["output_qubits"] != fr["output_qubits"]
+                    hs["recompiles_changing_num_qubits"] += before["num_qubits"] != fr["num_qubits"]
+                o["unc"], o["chlog"] = stp[2], chlog
+            # ---- judge every compiled live object ("read" steps judge too: that is the second reading)
+            for oname, o in objs.items():
+                if o["unc"] is None:
+                    continue
+                qf = o["qf"]
+                ocase = dict(src=prog["src"], profile=o["profile"], uncompute=o["unc"], object=oname, **hist)
+                hs["states_judged"] += 1
+                res.count(ocase, bucket="history-state:" + hname)
+                ob1, ob2 = self.observe(qf), self.observe(qf)
+                for key in ob1:
+                    if ob1[key] != ob2.get(key):
+                        res.violation(ocase, f"{key} read twice without compiling in between gives two answers",
+                                      code=dict(first=ob1[key], second=ob2.get(key)))
+                # consistent with the circuit the object holds now (own counts)
+                own = {"num_qubits": ob1.get("circuit.num_qubits"), "qubits": list(range(ob1.get("circuit.num_qubits") or 0)),
+                       "num_gates": len(ob1.get("circuit.gates") or []), "input_size": n, "input_qubits": list(range(n)),
+                       "output_size": ty_size(prog["ret"])}
+                for key, v in own.items():
+                    if ob1.get(key) != v:
+                        res.violation(ocase, f"{key} is not that of the circuit the object holds after this history",
+                                      code=ob1.get(key), expected=v)
+                fr = self.fresh_obs(prog, o["profile"], o["unc"])
+                for key in fr:
+                    if ob1.get(key) != fr[key]:
+                        res.violation(ocase, f"{key} differs from what a fresh object compiled with the same options reports",
+                                      code=ob1.get(key), expected=fr[key])
+                        break
+                self.check_program(prog, max_exh_bits, n_samples, rng, config=(o["profile"], o["unc"]), codec=False,
+                                   given=(qf, o["chlog"]), hist=dict(object=oname, **hist))
+                ob3 = self.observe(qf)
+                if ob3 != ob1:
+                    diff = {key: dict(before=ob1[key], after=ob3.get(key)) for key in ob1 if ob1[key] != ob3.get(key)}
+                    res.violation(ocase, "reading the observables and running the round trip changed what the object reports", code=diff)
 
     def check_e2e(self, qf, prog, pcase, chlog, gates, nq, oq, config=DEFAULT_CONFIG, arg_q=None, rebound=(), cstat=None):
         """`C05_end_to_end_general` speaks of the gate list the *compiler model* emits for a definition list of the
@@ -1224,7 +1471,9 @@ def run(ctx: Ctx) -> Result:
         "unused, used late, augmented assignment, tuple element re-bound, aliased / swapped) under EVERY configuration "
         "{defaultOptimizer, fastOptimizer} x {uncompute on, off} with ALL argument values, then random signatures (1-3 "
         "args, nested tuples, Qlist) x return forms (every third under a random configuration) with all values when "
-        "<= 2^10 else sampled, then random re-binding programs under every configuration; non-trivial = non-zero input "
+        "<= 2^10 else sampled, then random re-binding programs under every configuration; HISTORIES on one object (16 "
+        "programs whose layout differs between uncompute on and off x 2 profiles x 5 histories of compile() again / read / "
+        "second object, every state with all argument values; then random histories); non-trivial = non-zero input "
         "and a multi-argument or tuple-typed signature; plus per program (reading, str/list/int form, out_len) cases of "
         "format_outcome / interpret_as_qtype called twice on one object"
     )
@@ -1233,6 +1482,7 @@ def run(ctx: Ctx) -> Result:
     n_random = 1200 if ctx.thorough else 120
     maxbits = 14 if ctx.thorough else 10
     n_qrandom = 300 if ctx.thorough else 30
+    n_hrandom = 120 if ctx.thorough else 12
     all_exh = True
     progs = systematic_programs()
     for p in progs:
@@ -1249,6 +1499,20 @@ def run(ctx: Ctx) -> Result:
         for config in CONFIGS[1:]:
             ck.check_program(p, max_exh, n_samples, rng, config=config, codec=False)
     ck.flush()
+    # systematic, same for every seed: histories on ONE object (compile() again under the other uncompute flag, the same
+    # flag, reads in between, a second object from the same source) on programs whose layout differs between the flags,
+    # each under both optimizer profiles (the profile is fixed at translation: compile() cannot change it)
+    hprogs = history_programs()
+    layout = {}
+    for p in hprogs:
+        for profile in ("defaultOptimizer", "fastOptimizer"):
+            layout[(p["name"], profile)] = ck.layout_differs(p, profile)
+            for hname, steps in HISTORIES.items():
+                ck.check_history(p, profile, hname, steps, max_exh, n_samples, rng)
+        ck.flush()
+    moving = sorted({nm for (nm, _), d in layout.items() if d["output_qubits"] or d["num_qubits"]})
+    if len(moving) < 10 and not ck.stats["rejected"]:
+        raise RuntimeError(f"history slice collapse: only {len(moving)} programs whose layout differs between uncompute on and off")
     for i in range(n_random):
         prng = random.Random(f"C05-{ctx.seed}-{i}")  # every program replays alone
         p = random_program(prng, i, maxbits if i % 4 else min(maxbits, 8))
@@ -1269,6 +1533,33 @@ def run(ctx: Ctx) -> Result:
         if len(ck.reqs) > 20000:
             ck.flush()
     ck.flush()
+    # random variants of the histories (drawn last): random program of the family, random profile, random steps
+    for i in range(n_hrandom):
+        prng = random.Random(f"C05-h-{ctx.seed}-{i}")
+        p = random_history_program(prng, i) if i % 3 else hprogs[prng.randrange(len(hprogs))]
+        profile = prng.choice(["defaultOptimizer", "fastOptimizer", "fastOptimizer"])
+        ck.check_history(p, profile, f"random-{i}", random_history(prng), max_exh, n_samples, prng)
+    ck.flush()
+    hs = ck.stats.get("histories", {})
+    res.extra["histories"] = dict(
+        systematic=dict(programs=len(hprogs), profiles=2, histories={k: [step_text(x) for x in v] for k, v in HISTORIES.items()},
+                        programs_whose_layout_differs_on_vs_off=len(moving),
+                        layout_differs={f"{nm}/{pr}": [k for k, v in d.items() if v] for (nm, pr), d in layout.items()}),
+        random=dict(histories=n_hrandom, shape="program: 2 of 3 from the template family c = <op>; [d = <op>;] return <op> on "
+                                               "Qint[2|3] x Qint[2|3], 1 of 3 a systematic history program; profile default:fast "
+                                               "1:2; first object compiled on / off / not compiled, 3-6 steps of compile(on) / "
+                                               "compile(off) (70%), read (15%), a second object (15%)"),
+        counts=hs)
+    res.notes.append(
+        f"histories on one QlassF object: {len(hprogs)} systematic programs ({len(moving)} whose number of qubits or output "
+        f"qubits differ between uncompute on and off under at least one profile) x 2 profiles x {len(HISTORIES)} histories "
+        f"({', '.join(HISTORIES)}) + {n_hrandom} random histories: {hs.get('histories', 0)} histories, {hs.get('steps', 0)} steps, "
+        f"{hs.get('recompiles', 0)} compile() calls on an already compiled object ({hs.get('recompiles_changing_flag', 0)} "
+        f"changing the flag, {hs.get('recompiles_moving_output_qubits', 0)} of them moving the output qubits, "
+        f"{hs.get('recompiles_changing_num_qubits', 0)} changing the number of qubits), {hs.get('states_judged', 0)} object "
+        "states judged: every observable read twice, == the circuit held now, == a fresh object compiled with the same "
+        "options, all argument values round-tripped through the reported qubits, compiler model on the choices of the "
+        "latest compile()")
     res.extra["c05"] = ck.stats
     qk = {}
     for p in qmap_programs():
@@ -1343,11 +1634,40 @@ def replay(ctx: Ctx, payload):
     res = Result("C05")
     ck = Checker(ctx, res)
     prog = None
+    tier = payload.get("tier", "quick")
+    prng = random.Random(0)
+    if case.get("history"):
+        # a state of an object with a history: run that history again (same program, same profile of object A)
+        hname = case["history"]
+        prof = case.get("profile", DEFAULT_CONFIG[0])
+        if case.get("object") == "B" and any("other profile" in t for t in case.get("steps", [])):
+            prof = OTHER_PROFILE[prof]
+        steps = HISTORIES.get(hname)
+        for p in history_programs():
+            if p["src"] == src:
+                prog = p
+        if steps is None:
+            i = int(hname.split("-")[1])
+            prng = random.Random(f"C05-h-{payload.get('seed', 0)}-{i}")
+            hp = history_programs()
+            p = random_history_program(prng, i) if i % 3 else hp[prng.randrange(len(hp))]
+            prng.choice(["defaultOptimizer", "fastOptimizer", "fastOptimizer"])
+            steps = random_history(prng)
+            prog = p if p["src"] == src else None
+        if prog is None:
+            print("history program not found in the generator stream")
+            return 2
+        print("history:", hname, "under", prof, [step_text(x) for x in steps])
+        ck.check_history(prog, prof, hname, steps, 10, 120, prng)
+        ck.flush()
+        for v in res.violations[:3]:
+            print(json.dumps(v, indent=1, default=str)[:3000])
+        for d in res.disagreements[:3]:
+            print("DISAGREE", json.dumps(d, indent=1, default=str)[:2000])
+        return 1 if (res.violations or res.disagreements) else 0
     for p in systematic_programs() + qmap_programs():
         if p["src"] == src:
             prog = p
-    tier = payload.get("tier", "quick")
-    prng = random.Random(0)
     if prog is None:
         maxbits = 14 if tier == "thorough" else 10
         for i in range(1200 if tier == "thorough" else 120):
